@@ -10,7 +10,10 @@
 (* enabled its observation must equal the recorded one.  If several        *)
 (* internal interleavings lead to different quiescent states, all of them  *)
 (* are explored, so a trace is accepted iff the real outcome is among the  *)
-(* outcomes the specification allows.                                      *)
+(* outcomes the specification allows.  A step whose stimulus is flagged    *)
+(* b = 1 was followed by the next stimulus without waiting for quiescence  *)
+(* (same goroutine, back to back): it carries no observation, and the next *)
+(* stimulus may be taken after any number of internal steps.               *)
 (***************************************************************************)
 EXTENDS ListenMux
 
@@ -31,21 +34,23 @@ ObsP == [ run   |-> <<RunClass>>,
           accs  |-> [a \in Accs |-> <<AccClass(a), alis[a],
                                       <<ares[a][1], ares[a][2], IF ares[a][1] = "err" THEN "err" ELSE "">>>>] ]
 
-Matched == IF k = 0 THEN TRUE ELSE (IF Project THEN ObsP ELSE Obs) = Steps[k].obs
+Flagged == IF k = 0 THEN FALSE ELSE Steps[k].stim.b = 1
+Matched == IF k = 0 \/ Flagged THEN TRUE ELSE (IF Project THEN ObsP ELSE Obs) = Steps[k].obs
 
 TInit == Init /\ tr \in TraceLog /\ k = 0
 
 TNext == \/ (Spont /\ UNCHANGED <<meta, tr, k>>)
-         \/ /\ Quiescent /\ Matched /\ k < Len(Steps)
+         \/ /\ IF Flagged THEN rpend = "" ELSE (Quiescent /\ Matched)
+            /\ k < Len(Steps)
             /\ Do(Steps[k + 1].stim)
             /\ (Steps[k + 1].stim.k # "incoming" => UNCHANGED pay)
             /\ k' = k + 1
-            /\ UNCHANGED <<lim, nstim, hist, tr>>
+            /\ UNCHANGED <<lim, nstim, hist, bnext, tr>>
 
 TSpec == TInit /\ [][TNext]_tvars
 
 \* the whole trace has been matched
-TraceAccepted == (Quiescent /\ Matched /\ k = Len(Steps)) => PrintT("@@" \o ToJson([acc |-> ti]))
+TraceAccepted == (Quiescent /\ ~Flagged /\ Matched /\ k = Len(Steps)) => PrintT("@@" \o ToJson([acc |-> ti]))
 \* longest matched prefix (diagnostics)
 TraceProgress == (Quiescent /\ Matched /\ k > 0) => PrintT("@@" \o ToJson([ti |-> ti, k |-> k]))
 
